@@ -188,6 +188,23 @@ def ops(schema_obj, data, seed):
         out["json_back"] = [canon(to_wire(x)) for x in fastavro.json_reader(io.StringIO(so.getvalue()), schema_obj)]
     except Exception as e:  # noqa
         out["json"] = "ERR:" + exc_class(e)
+    # JSON documents that omit defaulted top-level fields (one at a time, then all of them)
+    try:
+        base_s = schema_obj
+        flds = base_s.get("fields") if isinstance(base_s, dict) and base_s.get("type") == "record" else None
+        if flds and isinstance(out.get("json"), str) and not out["json"].startswith("ERR:") and out["json"]:
+            doc = json.loads(out["json"].splitlines()[0])
+            dnames = [f["name"] for f in flds if "default" in f and f["name"] in doc]
+            res = []
+            for drop in [[n] for n in dnames[:4]] + ([dnames] if len(dnames) > 1 else []):
+                d2 = {k: v for k, v in doc.items() if k not in drop}
+                try:
+                    res.append(canon(to_wire(list(fastavro.json_reader(io.StringIO(json.dumps(d2) + "\n" + json.dumps(d2)), schema_obj)))))
+                except Exception as e:  # noqa
+                    res.append("ERR:" + exc_class(e))
+            out["json_absent"] = res
+    except Exception as e:  # noqa
+        out["json_absent"] = "ERR:" + exc_class(e)
     # generation from the library's random source
     try:
         from fastavro.utils import generate_one
@@ -232,6 +249,22 @@ def run(tier, seed):
     reqs, meta = [], []
     from wire import from_wire
     corpus = [(c["schema"], [from_wire(v) for v in c["values"]]) for _, c in load_corpus("C12")]
+    # directed: one named type used several times by name, every use with its own default; bytes / fixed defaults
+    corpus.append(({"type": "record", "name": "Shape", "fields": [
+        {"name": "label", "type": "string"},
+        {"name": "fill", "type": {"type": "enum", "name": "Color", "symbols": ["RED", "GREEN", "BLUE"]}, "default": "RED"},
+        {"name": "stroke", "type": "Color", "default": "BLUE"},
+        {"name": "edge", "type": "Color", "default": "GREEN"},
+        {"name": "box", "type": {"type": "record", "name": "Box", "fields": [{"name": "w", "type": "int"}]}, "default": {"w": 1}},
+        {"name": "box2", "type": "Box", "default": {"w": 2}},
+        {"name": "box3", "type": "Box", "default": {"w": 3}}]},
+        [{"label": "a", "fill": "GREEN", "stroke": "RED", "edge": "RED", "box": {"w": 9}, "box2": {"w": 8}, "box3": {"w": 7}}, {"label": "b"}]))
+    corpus.append(({"type": "record", "name": "Blob", "fields": [
+        {"name": "id", "type": "int"},
+        {"name": "raw", "type": "bytes", "default": "\u00ff\u0001"},
+        {"name": "sig", "type": {"type": "fixed", "name": "Sig", "size": 2}, "default": "ab"},
+        {"name": "sig2", "type": "Sig", "default": "cd"}]},
+        [{"id": 1, "raw": b"\x00\xfe", "sig": b"xy", "sig2": b"zw"}]))
     for i in range(n + len(corpus)):
         g = gen.Gen(seed * 12000017 + i, logical=(i % 3 == 0), bytes_defaults=False, hints=False)
         if i < len(corpus):
